@@ -397,7 +397,7 @@ RULES = [
 
 
 from . import shared
-RULES = RULES + shared.bundle('C08', ['values', 'stride', 'maxpd', 'driver'], ['details'])
+RULES = RULES + shared.bundle('C08', ['magloop', 'values', 'stride', 'maxpd', 'driver'], ['details'])
 from . import folds as _folds
 RULES = RULES + [_folds.fold_rule('C08')]
 from . import c07 as _c07
